@@ -104,11 +104,12 @@ PHs(V) == {m.v : m \in {x \in V : x.k = "prop"}}
 \* the smallest data id [harness strategy: pick]
 MinVal(S) == IF "A" \in S THEN "A" ELSE "B"
 
-\* what the mirror counts for the most voted precommit target (AnyTarget: a faulty mirror)
-CommitPow(V) == IF AnyTarget THEN PowOf({m.s : m \in {x \in V : x.k = "pc" /\ x.v # Nil}}) ELSE MaxPow(V, "pc")
-CommitT(V) == IF AnyTarget /\ (\E x \in V : x.k = "pc" /\ x.v # Nil)
-                THEN (LET nn == {t \in Values : PowT(V, "pc", t) > 0}
-                      IN CHOOSE t \in nn : \A u \in nn : PowT(V, "pc", t) >= PowT(V, "pc", u))
+\* what the mirror compares with the commit threshold (AnyTarget: a faulty mirror that takes the power of all
+\* precommits of the round for the power of the most voted target)
+CommitPow(V) == IF AnyTarget THEN TotalK(V, "pc") ELSE MaxPow(V, "pc")
+CommitT(V) == IF AnyTarget
+                THEN (IF \A t \in Values : PowT(V, "pc", Nil) >= PowT(V, "pc", t) THEN Nil
+                      ELSE IF PowT(V, "pc", "A") >= PowT(V, "pc", "B") THEN "A" ELSE "B")
               ELSE MaxT(V, "pc")
 
 \* which of the mirror's views the state machine's round is [kState.FindView]
@@ -217,9 +218,11 @@ BeginCommit(s, V) ==
   IN IF t \in PHs(V) THEN FinalizeReq(s1, t) ELSE s1
 
 \* a request that needs an entrance: resolved by Enter below
-NeedRound(s) == [s EXCEPT !.sr = @ + 1, !.step = "ENTER", !.pvd = FALSE, !.pcd = FALSE, !.finReq = FALSE, !.finCur = FALSE,
+\* (sth, str: what the state machine store holds; written when a round or height is entered by advancing,
+\* not by the start-up adjustment past a stored finalization)
+NeedRound(s) == [s EXCEPT !.sr = @ + 1, !.sth = s.sh, !.str = s.sr + 1, !.step = "ENTER", !.pvd = FALSE, !.pcd = FALSE, !.finReq = FALSE, !.finCur = FALSE,
                           !.vis = FALSE, !.ev = "none"]
-NeedHeight(s) == [s EXCEPT !.sh = @ + 1, !.sr = 0, !.step = "ENTER", !.pvd = FALSE, !.pcd = FALSE, !.finReq = FALSE,
+NeedHeight(s) == [s EXCEPT !.sh = @ + 1, !.sr = 0, !.sth = s.sh + 1, !.str = 0, !.step = "ENTER", !.pvd = FALSE, !.pcd = FALSE, !.finReq = FALSE,
                            !.finCur = FALSE, !.vis = FALSE, !.ev = "none"]
 
 SMMaj == Maj - WeakSM
@@ -333,7 +336,8 @@ Settle(s) == Drain(s, 12)
 -----------------------------------------------------------------------------
 (* ---- timers [handleTimerElapsed] ---------------------------------------- *)
 
-TimerOf(s) == IF s.stopped \/ s.pan # "" \/ s.sh > MaxH THEN "none"
+\* (a state machine that stopped on a refused record leaves the timer it had armed behind; nobody listens to it)
+TimerOf(s) == IF s.pan # "" \/ s.sh > MaxH THEN "none"
               ELSE CASE s.step = "AP" -> "Proposal" [] s.step = "PVD" -> "PrevoteDelay"
                      [] s.step = "PCD" -> "PrecommitDelay" [] s.step = "CW" -> "CommitWait" [] OTHER -> "none"
 
@@ -342,7 +346,7 @@ Elapse(s) ==
       \* one round ahead of the mirror the state machine holds the entrance snapshot, whose headers it
       \* has already answered for
       phs == IF Mode(s) = "N" THEN {} ELSE PHs(SMView(s))
-  IN CASE s.step = "AP" -> RecordPrevote(s0, PrevoteChoice(s0, phs))
+  IN CASE s.step = "AP" -> RecordPrevote([s0 EXCEPT !.step = "APV"], PrevoteChoice(s0, phs))
        [] s.step = "PVD" -> DoDecide([s0 EXCEPT !.step = "APC"], IF Mode(s) = "N" THEN {} ELSE SMView(s))
        [] s.step = "PCD" -> NeedRound(s0)
        [] s.step = "CW" -> IF s.finCur THEN NeedHeight(s0) ELSE [s0 EXCEPT !.step = "AF"]
@@ -367,13 +371,13 @@ Reboot(s) ==
 (* ---- the network -------------------------------------------------------- *)
 
 InitNode(i) == [me |-> i, K |-> {}, mr |-> 0, chain |-> <<>>, cr |-> 0,
-                sh |-> 1, sr |-> 0, step |-> "AP", pvd |-> FALSE, pcd |-> FALSE, finCur |-> FALSE, finReq |-> FALSE, due |-> FALSE,
+                sh |-> 1, sr |-> 0, sth |-> 1, str |-> 0, step |-> "AP", pvd |-> FALSE, pcd |-> FALSE, finCur |-> FALSE, finReq |-> FALSE, due |-> FALSE,
                 lockV |-> "none", lockR |-> -1, lockH |-> 1,
                 acts |-> {}, fin |-> <<>>, stopped |-> FALSE, resigned |-> FALSE, pan |-> "",
                 out |-> {}, vis |-> FALSE, ev |-> "none"]
 
-Obs(s, A) == [mh |-> MH(s), mr |-> s.mr, chain |-> s.chain, sh |-> s.sh, sr |-> s.sr, fin |-> s.fin,
-              timer |-> TimerOf(s), lockV |-> s.lockV, lockR |-> s.lockR, acts |-> A]
+Obs(s, A) == [mh |-> MH(s), mr |-> s.mr, chain |-> s.chain, sh |-> s.sth, sr |-> s.str, fin |-> s.fin,
+              timer |-> TimerOf(s), lockV |-> s.lockV, lockR |-> s.lockR, acts |-> A, beyond |-> s.sh > MaxH]
 
 \* Reduction: what can no longer influence anything is dropped from the state (the mirror never looks at
 \* a round it left [FindView: Orphaned], the state machine only at the view of the round it is in)
@@ -384,7 +388,8 @@ PastPrevotes(s, m, left) == m.k = "pv" /\ (left = 0 \/ ~RestartResumes) /\ m.h =
 Alive(s, m, left) ==
    /\ ~PastPrevotes(s, m, left)
    /\ \/ (m.h = MH(s) /\ m.r \in {s.mr, s.mr + 1} /\ MH(s) <= MaxH)
-      \/ (m.h = s.sh /\ m.r = s.sr /\ SMNeedsView(s) /\ ~s.stopped /\ s.sh <= MaxH)
+      \/ (m.h = s.sh /\ m.r = s.sr /\ SMNeedsView(s) /\ s.sh <= MaxH
+          /\ (~s.stopped \/ (RestartResumes /\ left > 0)))      \* a stopped state machine comes back only by a restart
 Prune(s, left) == [s EXCEPT !.K = {m \in @ : Alive(s, m, left)},
                       !.acts = {a \in @ : a.h = s.sh /\ a.r = s.sr /\ s.sh <= MaxH},
                       !.lockV = IF s.sh > MaxH THEN "none" ELSE @, !.lockR = IF s.sh > MaxH THEN -1 ELSE @,
@@ -429,7 +434,6 @@ VoteCands(s, D, k, r, d) ==
       avail == {m \in D : m.k = k /\ m.r = r}
       sigT(t) == {m.s : m \in {x \in cur : x.v = t}}
       sigAll == {m.s : m \in cur}
-      sigNN == {m.s : m \in {x \in cur : x.v # Nil}}
       newT(Q, t) == {m.s : m \in {x \in Q : x.v = t}}
       newAll(Q) == {m.s : m \in Q}
       LvT == IF d = 1 THEN (IF k = "pc" THEN {Maj} ELSE {}) ELSE IF k = "pv" THEN {Maj} ELSE {Maj, Maj - WeakMirror, Maj - WeakSM}
@@ -441,9 +445,9 @@ VoteCands(s, D, k, r, d) ==
       okA(Q) == \E L \in LvA :
                    /\ PowOf(sigAll) < L /\ PowOf(sigAll \cup newAll(Q)) >= L
                    /\ \A q \in Q : PowOf(sigAll \cup newAll(Q \ {q})) < L
-      okN(Q) == /\ AnyTarget /\ k = "pc" /\ d = 0 /\ \A q \in Q : q.v # Nil
-                /\ PowOf(sigNN) < Maj - WeakMirror /\ PowOf(sigNN \cup newAll(Q)) >= Maj - WeakMirror
-                /\ \A q \in Q : PowOf(sigNN \cup newAll(Q \ {q})) < Maj - WeakMirror
+      okN(Q) == /\ AnyTarget /\ k = "pc" /\ d = 0
+                /\ PowOf(sigAll) < Maj - WeakMirror /\ PowOf(sigAll \cup newAll(Q)) >= Maj - WeakMirror
+                /\ \A q \in Q : PowOf(sigAll \cup newAll(Q \ {q})) < Maj - WeakMirror
   IN {Q \in SmallSets(avail) : okT(Q) \/ okA(Q) \/ okN(Q)}
 
 Cands(s, n) ==
@@ -456,7 +460,7 @@ Cands(s, n) ==
   IN {S \in {{p} : p \in props} \cup votes \cup {W \in withHdr : \A q \in W : q.k = "prop" \/ \A p \in W : p.k # "prop" \/ p.v = q.v \/ AnyTarget}
         : OnePerSet(s, S)}
 
-Ctl(s) == <<s.mr, s.chain, s.cr, s.sh, s.sr, s.step, s.pvd, s.pcd, s.finCur, s.finReq, s.lockV, s.lockR, s.acts, s.fin, s.stopped>>
+Ctl(s) == <<s.mr, s.chain, s.cr, s.sh, s.sr, s.sth, s.str, s.step, s.pvd, s.pcd, s.finCur, s.finReq, s.lockV, s.lockR, s.acts, s.fin, s.stopped>>
 
 RECURSIVE Feed(_, _, _)
 Feed(s, S, order) ==
@@ -474,6 +478,7 @@ Deliver(n, S) ==
 
 Timeout(n) ==
   /\ TimerOf(node[n]) # "none"
+  /\ ~node[n].stopped
   /\ ~(node[n].step = "CW" /\ node[n].sh = MaxH /\ node[n].finCur)     \* bound: nothing is explored beyond MaxH
   /\ UNCHANGED restarts
   /\ Finish(n, Settle(Elapse(node[n])), [op |-> "timeout", n |-> n, ms |-> <<>>, exp |-> <<>>])
